@@ -48,7 +48,7 @@ def Acyclic (sys : Sys) (now : Int) : Prop :=
 def Mirror (s : St) : Prop := ∀ id, amGet s.store id = (amGet s.facts id).map J.obj
 
 /-- operations of one location's `State` -/
-inductive StOp where
+inductive ROp where
   | add (given : String) (x : Obj) (now : Int)
   | rem (id : String) (now : Int)
   | get (id : String) (now : Int)
@@ -57,7 +57,7 @@ inductive StOp where
   | clear
 
 /-- one step; the result is reduced to ok/error (the value is irrelevant for the invariants) -/
-def St.stepOp (s : St) : StOp → St × Except LErr Unit
+def St.stepOp (s : St) : ROp → St × Except LErr Unit
   | .add g x now => match s.add g x now with | (s', r) => (s', r.map (fun _ => ()))
   | .rem id now => match s.rem id now with | (s', r) => (s', r.map (fun _ => ()))
   | .get id now => match s.get id now with | (s', r) => (s', r.map (fun _ => ()))
@@ -66,7 +66,7 @@ def St.stepOp (s : St) : StOp → St × Except LErr Unit
   | .clear => (s.clear, .ok ())
 
 /-- run a history (failed operations keep whatever state they reached, as the Go code does) -/
-def St.runOps (s : St) : List StOp → St
+def St.runOps (s : St) : List ROp → St
   | [] => s
   | op :: rest => St.runOps (s.stepOp op).1 rest
 
